@@ -682,7 +682,9 @@ def rule_encodeall(ctx):
             return a if a == b else None
         return None
 
-    for root, ms in sorted(outs.items()):
+    unread = []
+    definite = False
+    for root, ms in sorted(outs.items(), key=lambda kv: (kv[0] not in ("basses", "roots", "semitones"), kv[0])):
         for k, m in enumerate(ms):
             v0 = m.val.a[0] if m.val.op == "sub" else m.val
             alts = resolve_ite_free(v0)
@@ -705,9 +707,15 @@ def rule_encodeall(ctx):
             good = good and not conds
             if not good and any(z.op == "call" and call_name(z) == "chord.encode" for z in tm.walk(m.val)) and not any(is_lit(a_) for a_ in alts):
                 # built from encode() results through plumbing this rule has no form for (integer codes and a gather,
-                # ...): not a label that bypasses encode()
-                raise AnalysisError(R, "encode_many: output %s is filled from encode() results through %s; this arrangement is not one the rule reads" % (root, tm.show(m.val, 3)))
+                # ...): not by itself a label that bypasses encode() - unless another store is a definite bypass
+                unread.append("output %s is filled from encode() results through %s" % (root, tm.show(m.val, 3)))
+                continue
+            if not good and not any(is_lit(a_) for a_ in alts) and unread:
+                continue  # an auxiliary buffer of the same unread arrangement (integer codes, counters)
+            definite = definite or not good
             yield ob(R, f, "chord.encode_many:%s@%d" % (root, k), good, "output %s[i] is a component of encode(label) for every label" % root if good else "output %s[i] is written as %s%s: some labels bypass encode()" % (root, tm.show(m.val, 3), (" under " + "; ".join(conds)) if conds else ""), node=m.node)
+    if unread and not definite:
+        raise AnalysisError(R, "encode_many: %s; this arrangement is not one the rule reads" % unread[0])
     # the cache only ever holds encode() results
     out_sites = {id(x) for ms in outs.values() for x in ms}
     for m in s.by_kind("mutate"):
